@@ -111,6 +111,9 @@ def build_metric(name):
         return MeanSquaredError(square_root=True)
     if name == "asym":
         return make_forecasting_scorer(_asym, name="asym", greater_is_better=False)
+    if name == "asym_class":   # the repo's own asymmetric loss class
+        from sktime.performance_metrics.forecasting import MeanAsymmetricError
+        return MeanAsymmetricError()
     if name == "asym_np":    # the direction flag as it comes out of a numpy comparison
         return make_forecasting_scorer(_asym, name="asym_np", greater_is_better=np.bool_(False))
     if name == "skill_np":
@@ -143,6 +146,7 @@ def raw_metric(name):
              "rmse": lambda t, p: float(np.sqrt(np.mean((t - p) ** 2))),
              "asym": _asym, "rel_true": _rel_true, "neg_mae": _neg_mae, "skill": _skill,
              "asym_np": _asym, "skill_np": _skill,
+             "asym_class": lambda t, p: float(np.mean(np.where(t - p < 0, (t - p) ** 2, np.abs(t - p)))),
              "corr": _corr, "nan_mae": _nan_mae}
     f = table[name]
     return lambda y_true, y_pred: f(np.asarray(y_true, float), np.asarray(y_pred, float))
@@ -287,7 +291,7 @@ def generate(prop, rng, tier):
         "series": {"seed": rng.randint(0, 10 ** 6), "origin": rng.choice([0, 0, 7, 100]),
                    "index": rng.choice(["range", "range", "int"]), "sp": rng.choice([2, 3, 4])},
         "metric": rng.choice([None, "smape", "mape", "mse", "asym", "neg_mae", "skill", "neg_mae",
-                              "skill", "corr" if len(cv["fh"]) >= 2 else "skill", "asym_np", "skill_np"]),
+                              "skill", "corr" if len(cv["fh"]) >= 2 else "skill", "asym_np", "skill_np", "asym_class"]),
         "n_jobs": rng.choice([None, 1, 2, 2, 3, 4]),
         "pre_dispatch": rng.choice([None, 1, 2, "2*n_jobs", "n_jobs"]),
         "refit": rng.random() < 0.8,
